@@ -48,6 +48,10 @@ class Stage:
             # milliseconds did not return within a deadline several orders of magnitude larger)
             h = json.load(open(outpath + ".hang"))
             return ("violation", f"operation did not return within {h.get('deadline_s')}s: {json.dumps(h.get('witness'))[:400]}", h["sig"])
+        if rc == 4 and outpath and os.path.exists(outpath + ".fatal"):
+            # the library refused something valid that the harness needed in order to continue (see util::fatal)
+            h = json.load(open(outpath + ".fatal"))
+            return ("violation", f"library refused a valid input the monitor depends on: {json.dumps(h.get('witness'))[:400]}", h["sig"])
         tail = ""
         try:
             tail = open(logpath, errors="replace").read()[-400:]
